@@ -62,11 +62,23 @@ fn bare_allowed(s: &str) -> bool {
 			.all(|c| matches!(c, b'A'..=b'Z' | b'a'..=b'z' | b'0'..=b'9' | b'_' | b'-'))
 }
 
+/// A TOML basic string is written like a JSON string, except that TOML does not allow
+/// U+007F to appear unescaped.
+fn escape_string_toml_buf(value: &str, buf: &mut String) {
+	let start = buf.len();
+	escape_string_json_buf(value, buf);
+	if value.contains('\u{7f}') {
+		let escaped = buf[start..].replace('\u{7f}', "\\u007f");
+		buf.truncate(start);
+		buf.push_str(&escaped);
+	}
+}
+
 fn escape_key_toml_buf(key: &str, buf: &mut String) {
 	if bare_allowed(key) {
 		buf.push_str(key);
 	} else {
-		escape_string_json_buf(key, buf);
+		escape_string_toml_buf(key, buf);
 	}
 }
 
@@ -101,7 +113,7 @@ fn manifest_value(
 		Val::Bool(true) => buf.push_str("true"),
 		Val::Bool(false) => buf.push_str("false"),
 		Val::Str(s) => {
-			escape_string_json_buf(&s.clone().into_flat(), buf);
+			escape_string_toml_buf(&s.clone().into_flat(), buf);
 		}
 		Val::Num(n) => write!(buf, "{n}").unwrap(),
 		#[cfg(feature = "exp-bigint")]
